@@ -1,4 +1,5 @@
 import BitbybitModel.Lemmas.Enum
+import BitbybitModel.Lemmas.Literal
 /-!
 # C10 — bitenum declarations are validated: exhaustiveness claims are sound
 
@@ -138,5 +139,35 @@ example : EnumValid 2 (some .tru) [v "A" 0, v "B" 1, v "C" 2, v "D" 3] := by
   · intro w hw n hn; simp [v] at hw; rcases hw with rfl | rfl | rfl | rfl <;> (simp at hn; omega)
 example : ¬ EnumValid 2 (some .tru) [v "A" 0, v "B" 1, v "C" 2] := by
   rintro ⟨_, _, _, _, h⟩; simp at h
+
+
+/-! ## the storage argument at the text level -/
+
+theorem repr_head_digit (n : Nat) : ∃ c cs, (Nat.repr n).toList = c :: cs ∧ c.isDigit = true := by
+  rw [Nat.toList_repr]
+  cases h : Nat.toDigits 10 n with
+  | nil => exact absurd h Nat.toDigits_ne_nil
+  | cons c cs =>
+    refine ⟨c, cs, rfl, ?_⟩
+    exact Nat.isDigit_of_mem_toDigits (b := 10) (n := n) (by decide) (by decide) (by rw [h]; simp)
+
+/-- **storage argument, text level**: the identifier `u<n>` (decimal `n < 2^64`) is read as the size `n` -/
+theorem config_parse_bits (c : Config) (n : Nat) (hn : n < 2 ^ 64) (pre : List String) (isIdent : Bool) :
+    c.parse (.path (pre ++ ["u" ++ Nat.repr n]) isIdent) = .ok { c with explicitBits := some { isIdent := isIdent, size := n } } := by
+  obtain ⟨d, ds, hds, hd⟩ := repr_head_digit n
+  have hl : (pre ++ ["u" ++ Nat.repr n]).getLast? = some ("u" ++ Nat.repr n) := by simp
+  have htl : ("u" ++ Nat.repr n).toList = 'u' :: d :: ds := by
+    rw [String.toList_append, hds]; rfl
+  have hplus : d ≠ '+' := by intro h; subst h; simp at hd
+  unfold Config.parse
+  simp only [hl, htl]
+  have : stripPlus (d :: ds) = d :: ds := by
+    unfold stripPlus
+    split
+    · rename_i r heq; cases heq; exact absurd rfl hplus
+    · rfl
+  rw [this, ← hds]
+  have hof : String.ofList (Nat.repr n).toList = Nat.repr n := String.ofList_toList
+  rw [hof, parseUsize_repr n hn]
 
 end Bb.C10
